@@ -1,7 +1,7 @@
 from common import WORLD_TB, WORLD_ASSUME, SCEN_RULE
 
 PROP = {
-    "suites": ["scn-directed", "scn-chain", "scn-mixed", "scn-mount", "scn-struct"],
+    "suites": ["scn-directed", "scn-chain", "scn-mixed", "scn-mount", "scn-struct", "binman"],
     "lean_modules": ["Lc.Props.C04"],
     "leanchecker": True,
     "trusted_base": WORLD_TB,
